@@ -438,6 +438,9 @@ func DecodeObject(r io.Reader) (obj ugo.Object, err error) {
 		if err := gob.NewDecoder(r).Decode(&v); err != nil {
 			return nil, err
 		}
+		if v == nil {
+			return nil, errors.New("decode error: nil object")
+		}
 		return v, nil
 	}
 	return nil, errors.New(
@@ -688,7 +691,7 @@ func (o *String) UnmarshalBinary(data []byte) error {
 	}
 
 	ub := 1 + offset + int(size)
-	if len(data) < ub {
+	if size > int64(len(data)) || len(data) < ub {
 		return errors.New("invalid ugo.String data size")
 	}
 
@@ -730,7 +733,7 @@ func (o *Bytes) UnmarshalBinary(data []byte) error {
 	}
 
 	ub := 1 + offset + int(size)
-	if len(data) < ub {
+	if size > int64(len(data)) || len(data) < ub {
 		return errors.New("invalid ugo.Bytes data size")
 	}
 
@@ -788,7 +791,7 @@ func (o *Array) UnmarshalBinary(data []byte) error {
 		return nil
 	}
 	ub := 1 + offset + int(size)
-	if len(data) < ub {
+	if size > int64(len(data)) || len(data) < ub {
 		return errors.New("invalid ugo.Array data size")
 	}
 
@@ -866,7 +869,7 @@ func (o *Map) UnmarshalBinary(data []byte) error {
 		return nil
 	}
 
-	if len(data) < 1+offset+int(size) {
+	if size > int64(len(data)) || len(data) < 1+offset+int(size) {
 		return errors.New("invalid ugo.Map data size")
 	}
 
@@ -1020,7 +1023,7 @@ func (o *CompiledFunction) UnmarshalBinary(data []byte) (err error) {
 		return nil
 	}
 
-	if len(data) < 1+offset+int(size) {
+	if size > int64(len(data)) || len(data) < 1+offset+int(size) {
 		return errors.New("invalid ugo.CompiledFunction data size")
 	}
 
